@@ -66,9 +66,16 @@ theorem kmpNext_ok (sf : Bool) (hsf : sf = true → p ≠ []) (i : Nat) (hi : i 
   · obtain ⟨r, hr, _⟩ := kmpNext_lt p T hT i hi a; exact ⟨_, hr⟩
   · obtain ⟨b, r, _, hr, _⟩ := kmpNext_full p T hT (hsf h1) a; exact ⟨_, hr⟩
 
-theorem fromSubstring_eq (hk : kmpTable p = .ok T) (contains sf : Bool) (hsf : sf = true → p ≠ []) :
+theorem fromSubstring_eq (hk : kmpTable p = .ok T) (contains sf : Bool) (hpne : p ≠ []) :
     fromSubstring syms p contains sf = build (kmpDFA syms p T contains sf) := by
+  have hsf : sf = true → p ≠ [] := fun _ => hpne
   unfold fromSubstring
+  have hemp : p.isEmpty = false := by
+    cases p with
+    | nil => exact absurd rfl hpne
+    | cons a t => rfl
+  rw [hemp]
+  simp only [Bool.false_eq_true, if_false]
   rw [hk]
   simp only
   have hrows : rowsM (fun i => rowOfM (kmpNext p T i) syms) (if sf = true then p.length + 1 else p.length) 0 =
@@ -392,10 +399,10 @@ theorem kmpDFA_minimal (hp : ∀ c ∈ p, c ∈ syms) (contains sf : Bool) (hsf 
 
 end dfa
 
-/-- F10 (first half): the empty pattern in suffix mode raises `IndexError` as soon as the
-alphabet is not empty (`substring[candidate]` with `candidate = kmp_table[0] = 0`). -/
-theorem fromSuffix_empty_error (a : α) (syms : List α) (contains : Bool) :
-    fromSubstring (a :: syms) [] contains true = .error (.py .indexError) := by
-  rfl
+/-- The empty pattern: `if not substring: return universal_language / empty_language` (the
+repair of finding F10a; before it, suffix mode raised `IndexError`). -/
+theorem fromSubstring_empty (syms : List α) (contains sf : Bool) :
+    fromSubstring syms [] contains sf =
+      if contains then universalLanguage syms else emptyLanguage syms := rfl
 
 end AV.Ctor.KMP
